@@ -188,8 +188,23 @@ def _hyp_settings(n, leg):
                     verbosity=Verbosity.quiet)
 
 
+def limit_memory():
+    """Cap the address space of a worker (default 6 GB, VERIF_MEM_GB): a runaway allocation then ends in a MemoryError in that
+    worker (a harness error, exit 2) instead of exhausting the machine."""
+    try:
+        import resource
+        gb = float(os.environ.get("VERIF_MEM_GB", "6"))
+        lim = int(gb * 2 ** 30)
+        soft, hard = resource.getrlimit(resource.RLIMIT_AS)
+        if hard == resource.RLIM_INFINITY or lim < hard:
+            resource.setrlimit(resource.RLIMIT_AS, (lim, hard))
+    except Exception:
+        pass
+
+
 def run_shard(task):
     leg_index, shard, nshards, n, tier = task
+    limit_memory()
     leg = _LEGS[leg_index]
     rec = Recorder(leg, _KNOWN)
     t0 = time.time()
